@@ -568,8 +568,8 @@ def r036(prog, chk, cm, only_when_no_hi):
                    message="a variation sequence naming the base glyph is encoded as non-default (or with the wrong glyph)")
         # the mapping consulted must be the complete code-point mapping
         for e, n, mexpr, c in eqs[:1]:
-            covs = cm.cov_expr(mexpr, c.test)
-            okc = all(cv is not None and "LO" in cv and ("HI" in cv or only_when_no_hi(dn, c.test)) for cv, dn in covs)
+            covs = cm.cov_expr(mexpr, c.loc)
+            okc = all(cv is not None and "LO" in cv and ("HI" in cv or only_when_no_hi(dn, c.loc)) for cv, dn in covs)
             chk.ob("R03.6", f"{fi.short}|{A.keytext(fi.node, ap)}|complete base mapping", okc, where(fi, c.loc),
                    detail=f"base mapping consulted holds {[sorted(cv) if cv is not None else '?' for cv, _ in covs]}",
                    message="the default / non-default decision consults a dict that lacks part of the code-point mapping "
